@@ -26,8 +26,9 @@ def guard(w, ev):
 def scenarios(tier):
     menu = [("EV", n) for n in EVENTS] + [
         ("SET", "clearRegionsAfterPrintFinishes", True), ("SET", "clearRegionsAfterPrintFinishes", False),
-        ("GCODE", "G28"), ("GCODE", "G1 X50 Y40 Z1"), ("GCODE", "G1 X10 Y10 E1"), ("GCODE", "M117 x"),
-        ("AT", "ExcludeRegion", "disable"), ("AT", "ExcludeRegion", "enable"),
+        ("SETBAD", "clearRegionsAfterPrintFinishes", True),
+        ("GCODE", "G28"), ("GCODE", "G1 X50 Y40 Z1"), ("GCODE", "G1 X10 Y10 E1"),
+        ("AT", "ExcludeRegion", "disable"),
         ("SCRIPT", "gcode", "afterPrintDone"), ("SCRIPT", "gcode", "beforePrintStarted"),
         ("ADD", "R", "a")]
     cfg = dict(prop="C11", monitors=("c11",), start=False, maxregions=1, guard=guard, at_toggle_only=False,
